@@ -16,7 +16,7 @@ TInit == Init /\ l = 1
 TReset ==
     /\ Is("reset") /\ P_PortsReset
     /\ cursor' = Lo /\ udpB' = {} /\ tcpB' = {}
-    /\ ent' = [s \in Slots |-> NoEnt] /\ leaked' = {} /\ names' = <<>> /\ anyl' = {}
+    /\ ent' = [s \in Slots |-> NoEnt] /\ leaked' = {} /\ names' = <<>> /\ anyl' = {} /\ crashed' = {}
     /\ nops' = 0 /\ nin' = 0 /\ last' = [a |-> "init"]
 
 \* the handle ids are chosen by the harness: the lowest-free-slot rule is not imposed
